@@ -931,14 +931,29 @@ impl Version {
         level: usize,
         sst: &SstMetadata,
     ) -> bool {
-        (level + 1..compaction.upper_level).all(|beneath| {
-            let beneath = &self.levels[beneath];
-            let lower_bound = beneath.lower_bound(&sst.first_key);
-            let upper_bound = beneath.upper_bound(&sst.last_key);
-            beneath.ssts[lower_bound..upper_bound.max(lower_bound)]
+        // NOTE:  The same holds within the sst's own level:  a sibling that shares a boundary key
+        // with it (a key whose versions straddle two outputs of one compaction) holds the older
+        // versions of that key, and must not be left above them.
+        let alone_in_level = level >= compaction.upper_level || level == 0 || {
+            let this_level = &self.levels[level];
+            let lower_bound = this_level.lower_bound(&sst.first_key);
+            let upper_bound = this_level.upper_bound(&sst.last_key);
+            this_level.ssts[lower_bound..upper_bound.max(lower_bound)]
                 .iter()
-                .all(|x| compaction.inputs.contains(&Setsum::from_digest(x.setsum)))
-        })
+                .all(|x| {
+                    x.setsum == sst.setsum
+                        || compaction.inputs.contains(&Setsum::from_digest(x.setsum))
+                })
+        };
+        alone_in_level
+            && (level + 1..compaction.upper_level).all(|beneath| {
+                let beneath = &self.levels[beneath];
+                let lower_bound = beneath.lower_bound(&sst.first_key);
+                let upper_bound = beneath.upper_bound(&sst.last_key);
+                beneath.ssts[lower_bound..upper_bound.max(lower_bound)]
+                    .iter()
+                    .all(|x| compaction.inputs.contains(&Setsum::from_digest(x.setsum)))
+            })
     }
 
     fn may_choose_compaction(&self, core: &CompactionCore) -> bool {
